@@ -7,7 +7,11 @@ lines pull items out of the repository source as text and annotate them:
   //@const  file=src/x.rs name=NAME                  copy a const item (X1)
   //@struct file=src/x.rs name=NAME                  copy a struct (X1: attributes, docs, #[br(temp)] fields dropped)
   //@fn file=src/x.rs name=NAME [impl=REGEX] [nth=K] copy a function and annotate it, until //@end:
+      (with macro=M invfile=src/y.rs : the function is the instantiation `M!(NAME, ...)` found in invfile of the
+       macro_rules! M defined in file - rule X7: textual substitution of the $parameters by the invocation's arguments;
+       with foreach=1 : rule X8 rewrites `(A..B).for_each(|v| { body });` into `for v in A..B { body }` before annotation)
       //@ret NAME                    name the result            (X2)
+      //@attr :: #[...]              attribute placed on the extracted copy (e.g. #[verifier::external_body] = assumed contract)
       //@vis pub(crate)              rewrite the visibility qualifier of the extracted copy (X1: annotation only)
       //@sig :: TEXT                 requires/ensures clauses   (X2)
       //@top :: TEXT                 inserted at body start     (X3; ghost lets / proof blocks)
@@ -23,6 +27,7 @@ lines pull items out of the repository source as text and annotate them:
       //@after  loop=N guard=IDENT [nth=K] :: TEXT   (N=0: the function body) that mentions IDENT
       //@+ TEXT                      continuation of the previous TEXT
   //@end
+  //@include inc/NAME.vti [KEY=VALUE ...]           splice the lines of another template fragment here, replacing @KEY@ by VALUE
   //@gen MODULE FUNCTION                              text produced by tools/MODULE.py:FUNCTION() (independent data, e.g. pi words)
 
 Everything that is not covered by a directive is copied verbatim.  If an
@@ -58,6 +63,82 @@ def _split_payload(line):
     return toks[0], toks[1:], text
 
 
+def expand_macro(repo, file, macro, invfile, inst):
+    """X7: instantiate a single-rule macro_rules! with the arguments of its invocation whose first argument is `inst`."""
+    src = open(os.path.join(repo, file)).read()
+    m = rs.mask(src)
+    mm = re.search(r"\bmacro_rules!\s+%s\s*\{" % re.escape(macro), m)
+    if not mm:
+        raise ScanError("LOST-ANCHOR macro_rules! %s not found in %s" % (macro, file))
+    mo = mm.end() - 1
+    mc = rs.match_brace(m, mo)
+    po = m.index("(", mo)
+    pc = rs.match_brace(m, po)
+    params = []
+    for part in src[po + 1:pc].split(","):
+        part = part.strip()
+        if not part:
+            continue
+        pm = re.match(r"\$([A-Za-z_][A-Za-z0-9_]*)\s*:\s*([a-z]+)$", part)
+        if not pm:
+            raise ScanError("X7 not applicable: macro parameter `%s` of %s" % (part, macro))
+        params.append(pm.group(1))
+    am = re.match(r"\s*=>\s*\{", m[pc + 1:])
+    if not am:
+        raise ScanError("X7 not applicable: rule shape of %s" % macro)
+    bo = pc + 1 + am.end() - 1
+    bc = rs.match_brace(m, bo)
+    rest = m[bc + 1:mc].strip().strip(";").strip()
+    if rest:
+        raise ScanError("X7 not applicable: macro %s has more than one rule" % macro)
+    body = src[bo + 1:bc]
+    isrc = open(os.path.join(repo, invfile)).read()
+    im = rs.mask(isrc)
+    args = None
+    for k in re.finditer(r"\b%s!\s*\(" % re.escape(macro), im):
+        ao = k.end() - 1
+        ac = rs.match_brace(im, ao)
+        parts = [x.strip() for x in isrc[ao + 1:ac].split(",")]
+        if parts and parts[0] == inst:
+            args = parts
+            break
+    if args is None:
+        raise ScanError("LOST-ANCHOR invocation %s!(%s, ...) not found in %s" % (macro, inst, invfile))
+    if len(args) != len(params):
+        raise ScanError("X7 not applicable: %s!(%s ...) has %d arguments for %d parameters" % (macro, inst, len(args), len(params)))
+    for pn, av in sorted(zip(params, args), key=lambda t: -len(t[0])):
+        body = re.sub(r"\$%s\b" % re.escape(pn), lambda _m, av=av: av, body)
+    if "$" in rs.mask(body):
+        raise ScanError("X7 not applicable: unsubstituted `$` left in %s!(%s ...)" % (macro, inst))
+    return body, "%s!(%s) [%s <- %s]" % (macro, ", ".join(args), file, invfile)
+
+
+def rewrite_for_each(src, fname):
+    """X8: `(A..B).for_each(|v| { body });` -> `for v in A..B { body }` (all occurrences, outermost first)."""
+    done = []
+    while True:
+        m = rs.mask(src)
+        mm = re.search(r"\(([^()]*?)\.\.([^()]*?)\)\s*\.for_each\(\s*\|\s*([A-Za-z_][A-Za-z0-9_]*)\s*\|\s*\{", m)
+        if not mm:
+            break
+        bo = mm.end() - 1
+        bc = rs.match_brace(m, bo)
+        tail = re.match(r"\s*\)\s*;", m[bc + 1:])
+        if not tail:
+            raise ScanError("X8 not applicable: for_each in %s is not a statement of the form `(a..b).for_each(|v| {..});`" % fname)
+        body = m[bo + 1:bc]
+        var = mm.group(3)
+        if re.search(r"\breturn\b", body) or "?" in body:
+            raise ScanError("X8 not applicable: `return`/`?` inside the for_each closure in %s" % fname)
+        if re.search(r"\b%s\s*(=[^=]|\+=|-=|\*=)" % var, body) or re.search(r"&\s*mut\s+%s\b" % var, body):
+            raise ScanError("X8 not applicable: closure parameter `%s` assigned in %s" % (var, fname))
+        a, b = src[mm.start(1):mm.end(1)].strip(), src[mm.start(2):mm.end(2)].strip()
+        head = "for %s in %s..%s {" % (var, a, b)
+        src = src[:mm.start()] + head + src[bo + 1:bc] + "}" + src[bc + 1 + tail.end():]
+        done.append("(%s..%s).for_each(|%s| ..)" % (a, b, var))
+    return src, done
+
+
 class FnSplice:
     def __init__(self, repo, params):
         self.repo = repo
@@ -73,7 +154,17 @@ class FnSplice:
     def render(self):
         p = self.params
         path = os.path.join(self.repo, p["file"])
-        src = open(path).read()
+        self.extra = []
+        if "macro" in p:
+            src, what = expand_macro(self.repo, p["file"], p["macro"], p["invfile"], p["name"])
+            self.extra.append({"rule": "X7", "what": what})
+        else:
+            src = open(path).read()
+        if p.get("foreach"):
+            src, done = rewrite_for_each(src, p["name"])
+            if not done:
+                raise ScanError("X8 not applicable: no for_each statement in %s" % p["name"])
+            self.extra.extend({"rule": "X8", "what": d, "fn": p["name"]} for d in done)
         f = rs.find_fn(src, p["name"], p.get("impl"), int(p["nth"]) if "nth" in p else None)
         start, o, c = f["start"], f["open"], f["close"]
         text = src[start:c + 1]
@@ -98,6 +189,9 @@ class FnSplice:
         for kind, args, txt in self.directives:
             if kind == "ret":
                 ret_name = args[0]
+            elif kind == "attr":
+                # attribute on the extracted copy (e.g. #[verifier::external_body]: the body is then an assumed contract)
+                ins.append((0, -1, txt + "\n"))
             elif kind == "vis":
                 # visibility qualifier of the extracted copy only (Verus: contracts of `pub` items may not mention private specs)
                 vm = re.match(r"pub(\s*\([^)]*\))?\s+", m)
@@ -270,7 +364,17 @@ def _drop_outer_comments(s):
 
 def build(template_path, repo):
     """Returns (verus_source_text, info) ; info = {'fns': [(name, first_line, last_line)], 'x4': [...], 'items': [...]}"""
-    lines = open(template_path).read().split("\n")
+    lines = []
+    for ln in open(template_path).read().split("\n"):
+        if ln.strip().startswith("//@include "):
+            toks = ln.strip().split()
+            inc = os.path.join(os.path.dirname(template_path), toks[1])
+            frag = open(inc).read().rstrip("\n")
+            for k, v in _kv(toks[2:]).items():
+                frag = frag.replace("@%s@" % k, v)
+            lines.extend(frag.split("\n"))
+        else:
+            lines.append(ln)
     out = []
     info = {"fns": [], "x4": [], "items": []}
     cur = None
@@ -297,6 +401,7 @@ def build(template_path, repo):
                 last = len("\n".join(out).split("\n"))
                 info["fns"].append((cur.params["name"], first, last, cur.params["file"]))
                 info["x4"].extend(x4)
+                info.setdefault("x78", []).extend(getattr(cur, "extra", []))
                 info["items"].append("fn %s%s (%s)" % ((cur.params.get("impl", "") + "::") if cur.params.get("impl") else "", cur.params["name"], cur.params["file"]))
                 cur = None
                 continue
